@@ -14,7 +14,9 @@ package main
 
 import (
 	"context"
+
 	"fmt"
+	"go.etcd.io/etcd/clientv3"
 	"math/rand"
 	"sort"
 	"strings"
@@ -193,6 +195,23 @@ func (x *idRace) judge(keyEvents []etcdx.WatchEvent) string {
 		r.Violation("cluster-id:callers-disagree:"+mode, fmt.Sprintf("contenders initialising one cluster id key returned %d different values %v", len(vals), vals), wit)
 		return "disagree"
 	}
+	if okCalls == 0 {
+		// every contender, and the member arriving after the race without any injected fault, failed
+		transient := false
+		for _, c := range x.calls {
+			if c.Fault == "" || c.Fault == "-" {
+				if strings.Contains(c.Err, "deadline") || strings.Contains(c.Err, "Unavailable") || strings.Contains(c.Err, "canceled") {
+					transient = true
+				}
+			}
+		}
+		if transient {
+			r.Count("cluster_id_race_without_any_id_transient_errors_not_judged", 1)
+		} else {
+			r.Violation("cluster-id:no-caller-obtains-an-id:"+mode, "no member obtained a cluster id although calls without any injected fault were made", wit)
+			return "none"
+		}
+	}
 	// (2) the committed history of the key holds one value forever
 	stored := map[string]bool{}
 	var storedVals []string
@@ -269,13 +288,81 @@ func judgeBatch(r *ev.Run, e *etcdx.Etcd, batch []*idRace) bool {
 		return false
 	}
 	byKey := map[string][]etcdx.WatchEvent{}
+	mine := map[string]bool{}
+	for _, x := range batch {
+		mine[x.key] = true
+	}
 	for _, h := range hs {
 		byKey[h.Key] = append(byKey[h.Key], h)
+		if !mine[h.Key] {
+			// the relatives and the bulk keys were planted before the batch started: nothing but the
+			// race keys may change
+			r.Violation("cluster-id:unrelated-key-written", fmt.Sprintf("key %s was written at revision %d while members initialised the cluster id keys of this batch", h.Key, h.Rev),
+				map[string]interface{}{"event": h, "race_keys": len(batch)})
+			return false
+		}
 	}
 	for _, x := range batch {
 		x.out = x.judge(byKey[x.key])
 	}
 	return r.Violations() == 0
+}
+
+// relatives of a race key: names that extend it, are a prefix of it, or sit next to it in key order.
+func relatives(key string) []string {
+	return []string{key + "0", key + "/x", key[:len(key)-1], key + "\x00"}
+}
+
+// plantRelatives writes the relatives of the given race keys (the keys themselves stay fresh).
+func plantRelatives(e *etcdx.Etcd, keys []string, planted map[string]bool) error {
+	var ops []clientv3.Op
+	flush := func() error {
+		if len(ops) == 0 {
+			return nil
+		}
+		_, err := e.Observer.Txn(context.Background()).Then(ops...).Commit()
+		ops = nil
+		return err
+	}
+	for _, k := range keys {
+		for _, rk := range relatives(k) {
+			planted[rk] = true
+			ops = append(ops, clientv3.OpPut(rk, "verif-unrelated"))
+			if len(ops) >= 100 {
+				if err := flush(); err != nil {
+					return err
+				}
+			}
+		}
+	}
+	return flush()
+}
+
+// plantBulk surrounds the race keys with a few thousand unrelated keys (before and after them in
+// key order, inside and outside their directory prefix).
+func plantBulk(e *etcdx.Etcd, n int) error {
+	var ops []clientv3.Op
+	for i := 0; i < n; i++ {
+		var k string
+		switch i % 4 {
+		case 0:
+			k = fmt.Sprintf("/verif-c20/a-bulk/%06d/cluster_id", i)
+		case 1:
+			k = fmt.Sprintf("/verif-c20/zz-bulk/%06d", i)
+		case 2:
+			k = fmt.Sprintf("/verif-c2/%06d/cluster_id", i)
+		default:
+			k = fmt.Sprintf("/verif-c200/%06d", i)
+		}
+		ops = append(ops, clientv3.OpPut(k, "verif-bulk"))
+		if len(ops) == 100 || i == n-1 {
+			if _, err := e.Observer.Txn(context.Background()).Then(ops...).Commit(); err != nil {
+				return err
+			}
+			ops = nil
+		}
+	}
+	return nil
 }
 
 // currentRev returns the next revision of the store: keys are fresh (never used before), so the
@@ -327,6 +414,7 @@ func clusterIDGated(r *ev.Run, e *etcdx.Etcd, cl []*etcdx.Client) {
 	cfgs := []cfg{{2, 2}, {3, r.Pick(2, 3)}}
 	cnt := 0
 	complete := true
+	planted := map[string]bool{}
 	for _, c := range cfgs {
 		plans := allPlans(c.n, c.maxFaulty)
 		// double faults: a contender whose first two transactions both fail (2 contenders only)
@@ -340,6 +428,16 @@ func clusterIDGated(r *ev.Run, e *etcdx.Etcd, cl []*etcdx.Client) {
 			if r.Shards > 1 && pi%r.Shards != r.Shard {
 				continue
 			}
+			// the keys of the next races get relatives (names extending them, prefixes, neighbours)
+			var next []string
+			for q := 1; q <= 150; q++ {
+				next = append(next, fmt.Sprintf("/verif-c20/g%d-%d/cluster_id", r.Shard, cnt+q))
+			}
+			if err := plantRelatives(e, next, planted); err != nil {
+				r.Inconclusive("etcd: %v", err)
+				return
+			}
+			r.Count("cluster_id_relatives_planted", int64(4*len(next)))
 			rev, err := currentRev(e)
 			if err != nil {
 				r.Inconclusive("etcd: %v", err)
@@ -418,7 +516,16 @@ func clusterIDFree(r *ev.Run, e *etcdx.Etcd, cl []*etcdx.Client, rng *rand.Rand)
 	}
 	for i := 0; i < races; i++ {
 		if len(batch) == 0 {
-			var err error
+			var next []string
+			for q := 0; q < 25; q++ {
+				next = append(next, fmt.Sprintf("/verif-c20/f%d-%d/cluster_id", r.Shard, i+q))
+			}
+			err := plantRelatives(e, next, map[string]bool{})
+			if err != nil {
+				r.Inconclusive("etcd: %v", err)
+				return
+			}
+			r.Count("cluster_id_relatives_planted", int64(4*len(next)))
 			if rev, err = currentRev(e); err != nil {
 				r.Inconclusive("etcd: %v", err)
 				return
